@@ -995,7 +995,7 @@ def _parallel(jobs):
 
 
 def model_check(ctx, schema_only=False):
-    comps = COMPONENTS
+    comps = COMPONENTS + ["mixed"]
     _parallel([(lambda c=c: ctx.mc("MC_Codec", "MC_Codec_%s.cfg" % c, coverage=False)) for c in comps])
 
 
